@@ -18,11 +18,6 @@ Definition known_statusb (r : result) : bool :=
   end.
 Definition statuses_known (r : report) : Prop := forallb (fun t => known_statusb (t_result t)) (all_tests r) = true.
 
-(* finished report: the run is over: start/end of the report and of every result are set *)
-Definition timedb (x : result) : bool := negb (is_none (r_start x)) && negb (is_none (r_end x)).
-Definition finished (r : report) : Prop :=
-  rp_start r <> None /\ rp_end r <> None /\ forallb (fun kr => timedb (snd kr)) (all_results r) = true.
-
 (* ================================================================ generic list lemmas ================ *)
 Lemma list_eqb_N_eq : forall a b : list N, list_eqb N.eqb a b = true <-> a = b.
 Proof.
@@ -213,16 +208,70 @@ Lemma message_vars : forall r m, message_ints r = VOk m -> msg_agree m r.
 Proof.
   intros r m H. unfold message_ints in H.
   destruct (from_report r) as [s|e] eqn:E; [|discriminate].
-  destruct (rp_end r), (rp_start r); try discriminate. inversion H; subst; clear H.
+  inversion H; subst; clear H.
   apply stats_counts in E. destruct E as [[H1 [H2 [H3 [H4 H5]]]] _].
   unfold msg_agree, enabled_nb, count_status. simpl. rewrite H1, H2, H3, H4, H5. intuition.
 Qed.
 
-Lemma message_vars_total : forall r, statuses_known r -> rp_start r <> None -> rp_end r <> None ->
-  exists m, message_ints r = VOk m.
+(* build_message returns on every report with known statuses, finished or not; its only error is the KeyError of from_report *)
+Lemma message_vars_total : forall r, statuses_known r -> exists m, message_ints r = VOk m.
+Proof. intros r Hk. unfold message_ints. destruct (stats_total r Hk) as [s Hs']. rewrite Hs'. eauto. Qed.
+
+Lemma message_vars_err : forall r e, message_ints r = VErr e -> e = KeyError /\ ~ statuses_known r.
 Proof.
-  intros r Hk Hs He. unfold message_ints. destruct (stats_total r Hk) as [s Hs']. rewrite Hs'.
-  destruct (rp_end r), (rp_start r); try congruence. eauto.
+  intros r e H. unfold message_ints in H. destruct (from_report r) as [s|e'] eqn:E; [discriminate|].
+  inversion H; subst. apply stats_err. exact E.
+Qed.
+
+(* the duration variable reads "n/a" exactly when the start or the end time of the report is missing *)
+Lemma message_na : forall r m, message_ints r = VOk m ->
+  (mv_duration m = None <-> rp_start r = None \/ rp_end r = None) /\
+  (forall b e, rp_start r = Some b -> rp_end r = Some e -> mv_duration m = Some (e - b)%Z).
+Proof.
+  intros r m H. unfold message_ints in H. destruct (from_report r) as [s|e'] eqn:E; [|discriminate].
+  inversion H; subst; clear H. simpl. unfold report_duration, get_duration.
+  destruct (rp_start r), (rp_end r); simpl; repeat split; intros; try discriminate; try tauto; try congruence;
+    try (destruct H; discriminate).
+Qed.
+
+(* ================================================================ percentages (integer arithmetic) ================ *)
+Lemma pct_zero : forall v, pct v 0 = 0%Z.
+Proof. reflexivity. Qed.
+
+(* pct v o is the floor of 100 * v / o *)
+Lemma pct_floor : forall v o, 0 < o ->
+  (pct v o * Z.of_nat o <= Z.of_nat v * 100 < (pct v o + 1) * Z.of_nat o)%Z.
+Proof.
+  intros v o Ho. unfold pct. destruct o as [|o]; [lia|].
+  set (d := Z.of_nat (S o)). set (a := (Z.of_nat v * 100)%Z).
+  assert (Hd : (0 < d)%Z) by (unfold d; lia).
+  pose proof (Z.mul_div_le a d Hd). pose proof (Z.mul_succ_div_gt a d Hd). lia.
+Qed.
+
+Lemma pct_nonneg : forall v o, (0 <= pct v o)%Z.
+Proof.
+  intros v o. unfold pct. destruct o as [|o]; [lia|]. apply Z.div_pos; lia.
+Qed.
+
+Lemma pct_range : forall v o, v <= o -> (0 <= pct v o <= 100)%Z.
+Proof.
+  intros v o Hv. split; [apply pct_nonneg|]. destruct o as [|o]; [rewrite pct_zero; lia|].
+  pose proof (pct_floor v (S o) ltac:(lia)) as [H _]. nia.
+Qed.
+
+(* the three percentages of the enabled tests never add up to more than 100, and lose at most 2 points to the truncations *)
+Lemma pct_sum : forall a b c, let e := a + b + c in
+  (0 <= pct a e + pct b e + pct c e <= 100)%Z /\ (0 < e -> (98 <= pct a e + pct b e + pct c e)%Z).
+Proof.
+  intros a b c e.
+  pose proof (pct_nonneg a e). pose proof (pct_nonneg b e). pose proof (pct_nonneg c e).
+  destruct (Nat.eq_dec e 0) as [E|E].
+  - rewrite E. rewrite !pct_zero. split; [lia|intro; lia].
+  - assert (He : 0 < e) by lia.
+    destruct (pct_floor a e He) as [A1 A2]. destruct (pct_floor b e He) as [B1 B2]. destruct (pct_floor c e He) as [C1 C2].
+    assert (Hs : (Z.of_nat a + Z.of_nat b + Z.of_nat c = Z.of_nat e)%Z) by (unfold e; lia).
+    assert (Hpos : (0 < Z.of_nat e)%Z) by lia.
+    split; [split; [lia|]|intros _]; nia.
 Qed.
 
 (* ================================================================ diff ================ *)
@@ -307,10 +356,10 @@ Definition is_fail_child (c : jchild) : bool := match c with JFailure | JError =
 Definition has_fail_child (l : list jchild) : bool := existsb is_fail_child l.
 Definition has_skipped_child (l : list jchild) : bool := existsb (fun c => match c with JSkipped => true | _ => false end) l.
 
-(* the verdict recorded for a test says "failed" exactly when its logs hold an error-level log or an unsuccessful check
-   (what the report writer guarantees for a finished test, C02); skipped tests are exempt *)
-Definition verdict_sound (x : result) : Prop :=
-  status_is s_skipped x = false -> status_is s_failed x = negb (forallb step_successful (r_steps x)).
+(* a test recorded as failed holds at least one error-level log or unsuccessful check (what the report writer guarantees:
+   `status = "passed" if result.is_successful() else "failed"`, writer.py) *)
+Definition failed_has_cause (x : result) : Prop :=
+  status_is s_failed x = true -> forallb step_successful (r_steps x) = false.
 
 Lemma log_children_fail : forall l, existsb is_fail_child (log_children l) = negb (log_successful l).
 Proof.
@@ -351,30 +400,29 @@ Proof.
   induction (st_logs s); simpl; auto. rewrite log_children_no_skipped. auto.
 Qed.
 
-(* unconditional description of the children *)
-Lemma junit_children_spec : forall x,
-  has_skipped_child (junit_children x) = status_is s_skipped x /\
-  has_fail_child (junit_children x) = negb (status_is s_skipped x) && negb (forallb step_successful (r_steps x)).
-Proof.
-  intro x. unfold junit_children. destruct (status_is s_skipped x); simpl.
-  - auto.
-  - rewrite steps_no_skipped_child, steps_fail_children. auto.
-Qed.
-
 Lemma status_failed_not_skipped : forall x, status_is s_failed x = true -> status_is s_skipped x = false.
 Proof.
   intros x H. unfold status_is in *. destruct (r_status x); [|discriminate].
   apply str_eqb_eq in H. subst. reflexivity.
 Qed.
 
-Lemma junit_iff_sound : forall x, verdict_sound x ->
+(* unconditional description of the children *)
+Lemma junit_children_spec : forall x,
+  has_skipped_child (junit_children x) = status_is s_skipped x /\
+  has_fail_child (junit_children x) = status_is s_failed x && negb (forallb step_successful (r_steps x)).
+Proof.
+  intro x. unfold junit_children. destruct (status_is s_skipped x) eqn:E; simpl.
+  - destruct (status_is s_failed x) eqn:F; auto. apply status_failed_not_skipped in F. congruence.
+  - destruct (status_is s_failed x); simpl; auto.
+    unfold steps_children. rewrite steps_no_skipped_child, steps_fail_children. auto.
+Qed.
+
+Lemma junit_iff_cause : forall x, failed_has_cause x ->
   has_fail_child (junit_children x) = status_is s_failed x /\
   has_skipped_child (junit_children x) = status_is s_skipped x.
 Proof.
-  intros x Hs. destruct (junit_children_spec x) as [H1 H2]. split; auto. rewrite H2.
-  destruct (status_is s_skipped x) eqn:E; simpl.
-  - destruct (status_is s_failed x) eqn:F; auto. apply status_failed_not_skipped in F. congruence.
-  - symmetry. apply Hs. exact E.
+  intros x Hc. destruct (junit_children_spec x) as [H1 H2]. split; auto. rewrite H2.
+  destruct (status_is s_failed x) eqn:F; simpl; auto. rewrite (Hc F). reflexivity.
 Qed.
 
 Lemma vmap_ok : forall {A B} (f : A -> vres B) l ys, vmap f l = VOk ys -> Forall2 (fun x y => f x = VOk y) l ys.
@@ -442,21 +490,21 @@ Proof.
   rewrite !filter_app, !app_length, Ht, Hf, Hk, I1, I2, I3. unfold count_in. auto.
 Qed.
 
-Lemma count_children : forall l, Forall (fun t => verdict_sound (t_result t)) l ->
+Lemma count_children : forall l, Forall (fun t => failed_has_cause (t_result t)) l ->
   count_in s_failed l = length (filter (fun x => has_fail_child (junit_children (t_result x))) l) /\
   count_in s_skipped l = length (filter (fun x => has_skipped_child (junit_children (t_result x))) l).
 Proof.
   unfold count_in. intros l Hs. induction Hs as [|t l Ht _ IH]; [simpl; auto|].
-  destruct (junit_iff_sound _ Ht) as [H1 H2]. destruct IH as [I1 I2].
+  destruct (junit_iff_cause _ Ht) as [H1 H2]. destruct IH as [I1 I2].
   cbn [filter]. rewrite H1, H2.
   change (test_has_status s_failed t) with (status_is s_failed (t_result t)).
   change (test_has_status s_skipped t) with (status_is s_skipped (t_result t)).
   destruct (status_is s_failed (t_result t)), (status_is s_skipped (t_result t)); cbn [length]; rewrite I1, I2; auto.
 Qed.
 
-(* the per-suite failures counter counts the testcases that carry a failure/error child, when verdicts are sound *)
+(* the per-suite failures counter counts the testcases that carry a failure/error child, when every failed test has a cause *)
 Lemma junit_counter_children : forall ps js, jsuite_spec ps js ->
-  Forall (fun t => verdict_sound (t_result t)) (s_tests_of (snd ps)) ->
+  Forall (fun t => failed_has_cause (t_result t)) (s_tests_of (snd ps)) ->
   js_failures js = length (filter (fun c => has_fail_child (jc_children c)) (js_cases js)) /\
   js_skipped js = length (filter (fun c => has_skipped_child (jc_children c)) (js_cases js)).
 Proof.
@@ -559,14 +607,7 @@ Lemma from_suites_ok : forall suites par s, from_suites suites par = VOk s ->
   stats_agree s (flat_map s_tests_of (flatten_suites suites)).
 Proof.
   intros suites par s H. unfold from_suites in H.
-  assert (T : map snd (filter is_test (suites_results suites)) = map t_result (flat_map s_tests_of (flatten_suites suites)))
-    by apply tests_of_suites_results.
-  destruct par.
-  - eapply from_results_counts in H; [|exact T]. tauto.
-  - destruct (suites_results suites) as [|first rest] eqn:E; [discriminate|].
-    destruct (r_end (snd (last (first :: rest) first))); [|discriminate].
-    destruct (r_start (snd first)); [|discriminate].
-    eapply from_results_counts in H; [|exact T]. tauto.
+  eapply from_results_counts in H; [|apply tests_of_suites_results]. tauto.
 Qed.
 
 Lemma shown_lines : forall l,
@@ -599,48 +640,47 @@ Proof.
     + apply stats_counts in E'. tauto.
 Qed.
 
-Lemma last_in : forall {A} (l : list A) d, l <> [] -> In (last l d) l.
+Lemma forallb_filter_false : forall {A} (p q : A -> bool) l, forallb p (filter q l) = false -> forallb p l = false.
 Proof.
-  induction l as [|x l IH]; intros d H; [contradiction|].
-  destruct l as [|y l']; [simpl; auto|]. right. apply IH. discriminate.
+  induction l as [|x l IH]; simpl; intro H; [discriminate|].
+  destruct (q x); simpl in H.
+  - apply andb_false_iff in H. apply andb_false_iff. destruct H; auto.
+  - apply andb_false_iff. auto.
 Qed.
 
-(* on a finished report with known statuses the console report (filtered or not) does not raise *)
-Lemma console_total : forall truthy f r, finished r -> statuses_known r ->
-  exists out, console_short truthy f r = VOk out.
+(* the statuses of the tests selected by a filter are known when those of the whole report are *)
+Lemma selected_known : forall f r, statuses_known r ->
+  forallb (fun t => known_statusb (t_result t)) (flat_map s_tests_of (flatten_suites (filter_suites f (rp_suites r)))) = true.
 Proof.
-  intros truthy f r [_ [_ Ht]] Hk. unfold console_short.
+  intros f r Hk. rewrite tests_filter_suites. fold (all_tests r).
+  unfold statuses_known in Hk. rewrite forallb_forall in *. intros t Hin. apply filter_In in Hin. apply Hk. tauto.
+Qed.
+
+(* on every report with known statuses, finished or not, the console report (filtered or not) does not raise *)
+Lemma console_total : forall truthy f r, statuses_known r -> exists out, console_short truthy f r = VOk out.
+Proof.
+  intros truthy f r Hk. unfold console_short.
   set (suites := filter_suites f (rp_suites r)).
   destruct (filter (fun s0 => negb (is_nil (s_tests_of s0))) (flatten_suites suites)) as [|x shown] eqn:Esh; [eauto|].
   destruct truthy.
-  - assert (Hok : forall d, exists s, from_results (suites_results suites) d = VOk s).
-    { intro d. eapply from_results_known; [apply tests_of_suites_results|].
-      unfold suites. rewrite tests_filter_suites. fold (all_tests r).
-      unfold statuses_known in Hk. rewrite forallb_forall in *. intros t Hin. apply filter_In in Hin. apply Hk. tauto. }
-    unfold from_suites. destruct (parallelized r).
-    + destruct (Hok None) as [s Hs]. rewrite Hs. eauto.
-    + destruct (suites_results suites) as [|first rest] eqn:E.
-      * (* a displayed suite has a test, so there is at least one result *)
-        exfalso.
-        assert (Hx : In x (filter (fun s0 => negb (is_nil (s_tests_of s0))) (flatten_suites suites)))
-          by (rewrite Esh; simpl; auto).
-        apply filter_In in Hx. destruct Hx as [Hx Hne].
-        destruct (s_tests_of x) as [|t ts] eqn:Et; [discriminate|].
-        assert (Hin : In (KTest, t_result t) (suites_results suites)).
-        { unfold suites_results. apply in_flat_map. exists x. split; auto.
-          unfold suite_results. rewrite Et. rewrite !in_app_iff. right. left. simpl. auto. }
-        rewrite E in Hin. contradiction.
-      * rewrite forallb_forall in Ht.
-        assert (Hin : forall kr, In kr (first :: rest) -> timedb (snd kr) = true).
-        { intros kr Hkr. apply Ht. apply suites_results_in_all. apply results_filter_suites_incl with f.
-          fold suites. rewrite E. exact Hkr. }
-        assert (H1 := Hin first (or_introl eq_refl)).
-        assert (H2 := Hin (last (first :: rest) first) (last_in (first :: rest) first ltac:(intro Hnil; discriminate Hnil))).
-        unfold timedb in H1, H2. apply andb_true_iff in H1. apply andb_true_iff in H2.
-        destruct (r_end (snd (last (first :: rest) first))); [|destruct H2; discriminate].
-        destruct (r_start (snd first)); [|destruct H1; discriminate].
-        destruct (Hok (Some (z - z0)%Z)) as [s Hs]. rewrite Hs. eauto.
+  - unfold from_suites.
+    destruct (from_results_known (suites_results suites) (suites_duration (suites_results suites) (parallelized r))
+                (flat_map s_tests_of (flatten_suites suites)) (tests_of_suites_results _) (selected_known f r Hk)) as [s Hs].
+    rewrite Hs. eauto.
   - destruct (stats_total r Hk) as [s Hs]. rewrite Hs. eauto.
+Qed.
+
+(* its only error is the KeyError of a status outside Result.STATUSES *)
+Lemma console_err : forall truthy f r e, console_short truthy f r = VErr e -> e = KeyError /\ ~ statuses_known r.
+Proof.
+  intros truthy f r e H. unfold console_short in H.
+  set (suites := filter_suites f (rp_suites r)) in *.
+  destruct (filter (fun s0 => negb (is_nil (s_tests_of s0))) (flatten_suites suites)) as [|x shown]; [discriminate|].
+  destruct truthy.
+  - destruct (from_suites suites (parallelized r)) as [s|e'] eqn:E; [discriminate|]. inversion H; subst; clear H.
+    unfold from_suites in E. eapply from_results_err in E; [|apply tests_of_suites_results].
+    destruct E as [E1 E2]. split; auto. intro Hk. unfold suites in E2. rewrite (selected_known f r Hk) in E2. discriminate.
+  - destruct (from_report r) as [s|e'] eqn:E; [discriminate|]. inversion H; subst. apply stats_err. exact E.
 Qed.
 
 (* ================================================================ diff : partition ================ *)
@@ -863,6 +903,12 @@ Definition w_unfinished : report :=
   mkReport [] [] (Some 1000%Z) None None 1%Z None None
     [SuiteResult (w_meta 115) (Some 1001%Z) None None None [mkTest (w_meta 116) w_open_result] []].
 
+(* a report (not producible by the report writer) whose only test is recorded as failed but holds no failing log *)
+Definition w_nocause : report :=
+  mkReport [] [] (Some 1000%Z) (Some 9000%Z) None 1%Z None None
+    [SuiteResult (w_meta 115) (Some 1001%Z) (Some 8000%Z) None None
+       [mkTest (w_meta 116) (mkResult (Some 1002%Z) (Some 1003%Z) (Some s_failed) None [])] []].
+
 (* a finished run with the four statuses, a failure made of an error log and one made of a failed check *)
 Definition w_res (s e : Z) (st : str) (logs : list steplog) : result :=
   mkResult (Some s) (Some e) (Some st) None
@@ -928,22 +974,51 @@ Lemma thm_junit_children : forall r j, junit_report r = VOk j ->
   forall t, In t (all_tests r) ->
     has_skipped_child (junit_children (t_result t)) = status_is s_skipped (t_result t) /\
     has_fail_child (junit_children (t_result t)) =
-      negb (status_is s_skipped (t_result t)) && negb (forallb step_successful (r_steps (t_result t))).
+      status_is s_failed (t_result t) && negb (forallb step_successful (r_steps (t_result t))).
 Proof. intros r j H. split; [apply junit_cases_all; exact H | intros t _; apply junit_children_spec]. Qed.
 
+(* F12 repaired: a failure/error child only on a failed test, a skipped child exactly on a skipped test, nothing at all on a
+   test in progress -- for every test, no hypothesis *)
+Lemma thm_junit_child_status : forall r j, junit_report r = VOk j ->
+  forall t, In t (all_tests r) ->
+    (has_fail_child (junit_children (t_result t)) = true -> r_status (t_result t) = Some s_failed) /\
+    (has_skipped_child (junit_children (t_result t)) = true <-> r_status (t_result t) = Some s_skipped) /\
+    (r_status (t_result t) = None -> junit_children (t_result t) = []).
+Proof.
+  intros r j _ t _. destruct (junit_children_spec (t_result t)) as [H1 H2]. split; [|split].
+  - rewrite H2. intro H. apply andb_true_iff in H. apply status_is_true. tauto.
+  - rewrite H1. apply status_is_true.
+  - intro H. unfold junit_children, status_is. rewrite H. reflexivity.
+Qed.
+
 Lemma thm_junit_iff_partial : forall r j, junit_report r = VOk j ->
-  forall t, In t (all_tests r) -> verdict_sound (t_result t) ->
+  forall t, In t (all_tests r) -> failed_has_cause (t_result t) ->
     (has_fail_child (junit_children (t_result t)) = true <-> r_status (t_result t) = Some s_failed) /\
     (has_skipped_child (junit_children (t_result t)) = true <-> r_status (t_result t) = Some s_skipped).
 Proof.
-  intros r j _ t _ Hs. destruct (junit_iff_sound _ Hs) as [H1 H2]. rewrite H1, H2. split; apply status_is_true.
+  intros r j _ t _ Hs. destruct (junit_iff_cause _ Hs) as [H1 H2]. rewrite H1, H2. split; apply status_is_true.
 Qed.
 
-Lemma thm_junit_iff_refuted : exists r j t,
+(* the hypothesis is needed: a test recorded as failed without any failing log has no child, and the counter says 1 *)
+Lemma thm_junit_iff_needs_failing_log : exists r j t,
+  junit_report r = VOk j /\ In t (all_tests r) /\ r_status (t_result t) = Some s_failed /\
+  ~ failed_has_cause (t_result t) /\
+  has_fail_child (junit_children (t_result t)) = false /\
+  jr_failures j = 1 /\ map js_failures (jr_suites j) = [1].
+Proof.
+  exists w_nocause. eexists. exists (mkTest (w_meta 116) (mkResult (Some 1002%Z) (Some 1003%Z) (Some s_failed) None [])).
+  split; [vm_compute; reflexivity|]. split; [simpl; auto|]. split; [reflexivity|].
+  split; [intro H; specialize (H eq_refl); discriminate H|]. vm_compute. auto.
+Qed.
+
+(* F12, the code before the repair: an in-progress test with an error log got an <error> child although its status is not
+   failed and every failures counter is 0; the repaired code gives that testcase no child *)
+Lemma thm_junit_iff_unfixed_refuted : exists r j t,
   junit_report r = VOk j /\ In t (all_tests r) /\ r_status (t_result t) = None /\
-  In (mkCase (m_name (t_meta t)) [JError]) (flat_map js_cases (jr_suites j)) /\
-  has_fail_child (junit_children (t_result t)) = true /\
-  jr_failures j = 0 /\ map js_failures (jr_suites j) = [0].
+  junit_children_unfixed (t_result t) = [JError] /\
+  has_fail_child (junit_children_unfixed (t_result t)) = true /\
+  jr_failures j = 0 /\ map js_failures (jr_suites j) = [0] /\
+  flat_map js_cases (jr_suites j) = [mkCase (m_name (t_meta t)) []].
 Proof.
   exists w_unfinished. eexists. exists (mkTest (w_meta 116) w_open_result).
   split; [vm_compute; reflexivity|]. vm_compute. intuition.
@@ -967,7 +1042,7 @@ Proof.
 Qed.
 
 Lemma thm_junit_counters_children_partial : forall r j, junit_report r = VOk j ->
-  Forall (fun t => verdict_sound (t_result t)) (all_tests r) ->
+  Forall (fun t => failed_has_cause (t_result t)) (all_tests r) ->
   Forall (fun js => js_failures js = length (filter (fun c => has_fail_child (jc_children c)) (js_cases js)) /\
                     js_skipped js = length (filter (fun c => has_skipped_child (jc_children c)) (js_cases js)))
          (jr_suites j).
@@ -993,11 +1068,41 @@ Lemma thm_stats_total : forall r,
   (forall e, from_report r = VErr e -> e = KeyError /\ ~ statuses_known r).
 Proof. intro r. split; [apply stats_total | apply stats_err]. Qed.
 
-Lemma thm_message_vars_partial : forall r, finished r -> statuses_known r -> exists m, message_ints r = VOk m.
-Proof. intros r [Hs [He _]] Hk. apply message_vars_total; auto. Qed.
+Lemma thm_message_total : forall r,
+  (statuses_known r -> exists m, message_ints r = VOk m) /\
+  (forall e, message_ints r = VErr e -> e = KeyError /\ ~ statuses_known r).
+Proof. intro r. split; [apply message_vars_total | apply message_vars_err]. Qed.
 
-Lemma thm_message_vars_refuted : exists r, statuses_known r /\ message_ints r = VErr TypeError.
-Proof. exists w_unfinished. split; vm_compute; reflexivity. Qed.
+Lemma thm_message_unfixed_refuted : exists r m, statuses_known r /\ rp_end r = None /\
+  message_ints_unfixed r = VErr TypeError /\
+  message_ints r = VOk m /\ mv_duration m = None /\ mv_total m = 1.
+Proof. exists w_unfinished. eexists. repeat split; vm_compute; reflexivity. Qed.
+
+Definition enabled_count (r : report) : nat := count_status s_passed r + count_status s_failed r + count_status s_skipped r.
+
+Lemma thm_message_pcts : forall r m, message_ints r = VOk m ->
+  let p := message_pcts m in
+  p_passed p = pct (count_status s_passed r) (enabled_count r) /\
+  p_failed p = pct (count_status s_failed r) (enabled_count r) /\
+  p_skipped p = pct (count_status s_skipped r) (enabled_count r) /\
+  p_disabled p = pct (count_status s_disabled r) (length (all_tests r)) /\
+  (0 <= p_passed p + p_failed p + p_skipped p <= 100)%Z /\
+  (0 < enabled_count r -> (98 <= p_passed p + p_failed p + p_skipped p)%Z) /\
+  (0 <= p_disabled p)%Z.
+Proof.
+  intros r m H p. destruct (message_vars r m H) as [Ht [Hp [Hf [Hs [Hd He]]]]].
+  unfold p, message_pcts, enabled_count. simpl. rewrite Ht, Hp, Hf, Hs, Hd, He.
+  destruct (pct_sum (count_status s_passed r) (count_status s_failed r) (count_status s_skipped r)) as [S1 S2].
+  repeat split; try reflexivity; try (apply S1); try exact S2. apply pct_nonneg.
+Qed.
+
+Lemma thm_pct_floor : forall v o,
+  (o = 0 -> pct v o = 0%Z) /\
+  (0 < o -> (pct v o * Z.of_nat o <= Z.of_nat v * 100 < (pct v o + 1) * Z.of_nat o)%Z) /\
+  (v <= o -> (0 <= pct v o <= 100)%Z).
+Proof.
+  intros v o. split; [intro; subst; apply pct_zero|]. split; [apply pct_floor | apply pct_range].
+Qed.
 
 Lemma thm_console_counts : forall truthy f r lines s,
   console_short truthy f r = VOk (COut lines s) ->
@@ -1008,21 +1113,41 @@ Lemma thm_console_counts : forall truthy f r lines s,
   sm_passed (summary_of s) = count_in s_passed shown /\
   sm_failed (summary_of s) = count_in s_failed shown /\
   sm_skipped (summary_of s) = nz (count_in s_skipped shown) /\
-  sm_disabled (summary_of s) = nz (count_in s_disabled shown).
+  sm_disabled (summary_of s) = nz (count_in s_disabled shown) /\
+  summary_pct s = pct (count_in s_passed shown) (count_in s_passed shown + count_in s_failed shown + count_in s_skipped shown).
 Proof.
   intros truthy f r lines s H sel shown. destruct (console_counts truthy f r lines s H) as [L [A [B [C [D E]]]]].
-  unfold summary_of. simpl. fold sel in A, B, C, D, E. fold shown in A, B, C, D, E.
+  unfold summary_of, summary_pct, enabled_nb. simpl. fold sel in A, B, C, D, E. fold shown in A, B, C, D, E.
   rewrite A, B, C, D, E. repeat split; auto.
 Qed.
+
+(* the console percentage of the unfiltered report is the passed_pct message variable *)
+Lemma thm_console_pct_is_message_pct : forall r s m, from_report r = VOk s -> message_ints r = VOk m ->
+  summary_pct s = p_passed (message_pcts m).
+Proof.
+  intros r s m Hs Hm. unfold message_ints in Hm. rewrite Hs in Hm. inversion Hm; subst. reflexivity.
+Qed.
+
+Lemma thm_console_total : forall truthy f r,
+  (statuses_known r -> exists out, console_short truthy f r = VOk out) /\
+  (forall e, console_short truthy f r = VErr e -> e = KeyError /\ ~ statuses_known r).
+Proof. intros truthy f r. split; [apply console_total | apply console_err]. Qed.
 
 Lemma thm_console_labels : forall t, status_in_enum (r_status (t_result t)) ->
   (label_of t = LOK <-> r_status (t_result t) = Some s_passed) /\ (label_of t = LKO <-> r_status (t_result t) = Some s_failed).
 Proof. intros t H. apply label_spec. exact H. Qed.
 
-Lemma thm_console_counts_refuted : exists r, statuses_known r /\
-  rf_truthy f_enabled_only = true /\ console_short true (rf_apply f_enabled_only) r = VErr TypeError /\
-  exists out, console_short false (fun _ => true) r = VOk out.
-Proof. exists w_unfinished. repeat split; try (vm_compute; reflexivity). eexists. vm_compute. reflexivity. Qed.
+(* F13, the code before the repair: ReportStats.from_suites raised TypeError on the filtered suites of an unfinished report
+   whose last selected result is in progress (and IndexError on an empty selection); the repaired code returns, duration n/a *)
+Lemma thm_console_unfixed_refuted : exists r s, statuses_known r /\ rf_truthy f_enabled_only = true /\
+  from_suites_unfixed (filter_suites (rf_apply f_enabled_only) (rp_suites r)) (parallelized r) = VErr TypeError /\
+  from_suites_unfixed [] false = VErr IndexError /\
+  console_short true (rf_apply f_enabled_only) r = VOk (COut [[LDash]] s) /\
+  st_duration s = None /\ st_tests_nb s = 1 /\
+  exists s0, from_suites [] false = VOk s0 /\ st_tests_nb s0 = 0 /\ st_duration s0 = None.
+Proof.
+  exists w_unfinished. eexists. repeat split; try (vm_compute; reflexivity). eexists. vm_compute. auto.
+Qed.
 
 Lemma thm_diff_partition : forall f r1 r2, unique_test_paths r1 -> unique_test_paths r2 ->
   let l1 := dtests f r1 in let l2 := dtests f r2 in let d := diff_reports f r1 r2 in
